@@ -155,11 +155,14 @@ def register(PROPS, CLASSIFIERS, REPLAY_RUNNERS):
 
     # ------------------------------------------------------------------ C12 over actor trees (c12actors.py)
     PROPS["C12"]["q_checks"].append(_lazy("c12actors", "c12_actor_trees"))
+    PROPS["C12"]["q_checks"].append(_lazy("c12err", "c12_error_status"))
 
     def _c12_replay(case, obs, flavor):
         """actor-tree cases carry their own payload (`case["c12a"]`); every other C12 replay is a plain cut-point case"""
         if "c12a" in case:
             return _call("c12actors", "replay_problems")(case["c12a"], flavor)
+        if "c12err" in case:        # a snapshot taken in the error status (c12err.py)
+            return _call("c12err", "replay_problems")(case["c12err"], flavor)
         return _call("c12", "c12_replay_monitor")(case, obs, flavor)
     PROPS["C12"]["oracles"] = [_c12_replay]
 
@@ -225,4 +228,12 @@ def register(PROPS, CLASSIFIERS, REPLAY_RUNNERS):
         return _call("c07params", "replay_problems")(case["c07params"], flavor)
     PROPS["C07"]["oracles"] = list(PROPS["C07"]["oracles"]) + [_c07params_replay]
     PROPS["C07"]["q_checks"].append(_lazy("c07params", "c07_raising_guard_params"))
+
+    # ------------------------------------------------------------------ C07: a raising plugin hook / subscriber / emit listener changes nothing
+    def _c07obs_replay(case, obs, flavor):
+        if "fault_at" not in case:
+            return []
+        return _call("c07obs", "replay_problems")(case, flavor)
+    PROPS["C07"]["oracles"] = list(PROPS["C07"]["oracles"]) + [_c07obs_replay]
+    PROPS["C07"]["q_checks"].append(_lazy("c07obs", "c07_observer_faults"))
     PROPS["C10"].setdefault("q_checks", []).append(_lazy("c10data", "c10_done_data"))
